@@ -145,7 +145,7 @@ type stubClock struct {
 	now time.Time
 }
 
-func (c *stubClock) get() time.Time { c.mu.Lock(); defer c.mu.Unlock(); return c.now }
+func (c *stubClock) get() time.Time  { c.mu.Lock(); defer c.mu.Unlock(); return c.now }
 func (c *stubClock) set(t time.Time) { c.mu.Lock(); c.now = t; c.mu.Unlock() }
 
 func beginErrCode(err error) int64 {
